@@ -45,19 +45,32 @@ def text_map(text, path=()):
         if k[:len(path)] == path and len(k) > len(path): out.setdefault(k[len(path)], {})[k[len(path) + 1:]] = v
     return out
 # ---- attrpath families: assignment to an EXISTING leaf through the nested mapping must show in the text ----
+def dec(n): return n[1:-1] if n.startswith('"') else n          # API keys of quoted names carry their quotes; the independent reader decodes them
 for it in range(N // 3):
-    root = R.choice(['services', 'meta', 'a']); mids = R.sample(['x', 'y', 'z', 'w'], R.randint(2, 4)); deep = R.random() < 0.5
-    lines = ['  %s.%s%s = %d;' % (root, m, '.enable' if deep else '', j) for j, m in enumerate(mids)]
+    root = R.choice(['services', 'meta', 'a', '"q r"', '"a"']); mids = R.sample(['x', 'y', 'z', 'w', '"m n"', '"v"'], R.randint(2, 4)); deep = R.random() < 0.5
+    leaf = R.choice(['enable', 'enable', '"e f"'])
+    lines = ['  %s.%s%s = %d;' % (root, m, '.' + leaf if deep else '', j) for j, m in enumerate(mids)]
     extra = ['  other = 1;'] if R.random() < 0.5 else []
     R.shuffle(extra)
     text = '{\n' + '\n'.join(extra[:1] + lines + extra[1:]) + '\n}\n'
-    src = parse(text); m = R.choice(mids); v = R.randrange(100, 200); count('attrpath-leaf-assign')
+    src = parse(text); m = R.choice(mids); v = R.randrange(100, 200); count('attrpath-leaf-assign' + ('/quoted' if '"' in root + m + (leaf if deep else '') else ''))
     try:
-        if deep: src[root][m]['enable'] = v; got = src[root][m]['enable']
+        # the mapping reports every written name, and only those
+        want_top = {dec(root)} | ({'other'} if extra else set())
+        tm0 = text_map(src.rebuild())
+        if set(tm0) != want_top: bad('independent reader and generator disagree (harness)', doc=text)
+        for k_api in [root] + (['other'] if extra else []):
+            try: src[k_api]
+            except KeyError: bad('a top-level name written in attrpath form is not found by the document mapping', doc=text, key=k_api)
+        inner = src[root]
+        for mm in mids:
+            try: inner[mm]
+            except KeyError: bad('a second-level name written in attrpath form is not found by the nested mapping', doc=text, key=[root, mm])
+        if deep: src[root][m][leaf] = v; got = src[root][m][leaf]
         else: src[root][m] = v; got = src[root][m]
         gv = got.rebuild() if hasattr(got, 'rebuild') else str(got)
         after = read_tree(src.rebuild())
-        key = (root, m, 'enable') if deep else (root, m)
+        key = (dec(root), dec(m), dec(leaf)) if deep else (dec(root), dec(m))
         if ' '.join(gv.split()) != str(v): bad('lookup after a nested assignment returns %r' % gv, doc=text, ops=[['assign', list(key), v]])
         elif after is None or after[0].get(key) != str(v): bad('assignment to an attrpath-derived leaf through the nested mapping is not shown by the rebuilt text', doc=text, ops=[['assign', list(key), v]], text=src.rebuild())
     except Exception as e:
